@@ -249,6 +249,106 @@ theorem assign_translated {s : St} (h : Sane s) (v w : Nat) :
           · have : blk'.ref - 1 ≠ 0 := by omega
             mach_simp [hloc, hv, hb', r1, r0', this, hs, hl, hne]
 
+/-- `append(const String& str)` is the model's `appendS` — `str` may be the String itself (it is read after the `detach`) -/
+theorem appendS_translated {s : St} (h : Sane s) (v w : Nat) : Body.appendS s v w = appendS s v w := by
+  unfold Body.appendS appendS
+  simp only [dLen_desc, dStr_desc]
+  cases hdv : desc s v with
+  | none => simp
+  | some dv =>
+    cases hdw : desc s w with
+    | none => simp
+    | some dw =>
+      have e := detach_translated_eq h v dv.len (dv.len + dw.len) (Or.inl (by rw [lenOf_eq hdv]; omega))
+      simp only [Option.map_some, Option.bind_eq_bind, Option.bind_some, e, Option.pure_def]
+      cases hdet : detach s v dv.len (dv.len + dw.len) with
+      | none => simp
+      | some s1 =>
+        obtain ⟨b, blk, hv1, hb1, r1, hl⟩ := detach_excl hdet
+        have hd1 : desc s1 v = some ⟨.blk b, 0, blk.len, blk.cap, blk.ref⟩ := by simp [desc, hv1, hb1]
+        simp only [Option.bind_some, hd1, Option.map_some, content]
+        cases hdw1 : desc s1 w with
+        | none => simp
+        | some dw1 =>
+          simp only [Option.map_some, Option.bind_some, memCopy, padd, Nat.mul_one, Option.bind_eq_bind]
+          cases hsrc : rdRange s1 dw1.base dw1.off dw1.len with
+          | none => simp
+          | some src =>
+            simp [putTail, hd1, memOf, hb1, hv1, writeOwn, r1, setLen, updBlk, storeChar, upd_upd_same, Option.bind_assoc, hl, desc]
+
+/-- `append(const char* str, usize len)` for ANY pointer (also one into the String's own storage): the chars are read after
+    the `detach` -/
+theorem appendP_translated {s : St} (h : Sane s) (v : Nat) (p : CPtr) (len : Nat) :
+    Body.appendP s v p len = (do
+      let dv ← desc s v
+      let s1 ← detach s v dv.len (dv.len + len)
+      let dv1 ← desc s1 v
+      let src ← rdRange s1 p.base p.off len
+      putTail s1 v dv1.len src (dv.len + len)) := by
+  unfold Body.appendP
+  simp only [dLen_desc, dStr_desc]
+  cases hdv : desc s v with
+  | none => simp
+  | some dv =>
+    have e := detach_translated_eq h v dv.len (dv.len + len) (Or.inl (by rw [lenOf_eq hdv]; omega))
+    simp only [Option.map_some, Option.bind_eq_bind, Option.bind_some, e, Option.pure_def]
+    cases hdet : detach s v dv.len (dv.len + len) with
+    | none => simp
+    | some s1 =>
+      obtain ⟨b, blk, hv1, hb1, r1, hl⟩ := detach_excl hdet
+      have hd1 : desc s1 v = some ⟨.blk b, 0, blk.len, blk.cap, blk.ref⟩ := by simp [desc, hv1, hb1]
+      simp only [Option.bind_some, hd1, Option.map_some, memCopy, padd, Nat.mul_one, Option.bind_eq_bind]
+      cases hsrc : rdRange s1 p.base p.off len with
+      | none => simp
+      | some src =>
+        simp [putTail, hd1, memOf, hb1, hv1, writeOwn, r1, setLen, updBlk, storeChar, upd_upd_same, Option.bind_assoc, hl, desc]
+
+/-- `append(char)` is the model's `appendC` -/
+theorem appendC_translated {s : St} (h : Sane s) (v c : Nat) : Body.appendC s v c = appendC s v c := by
+  unfold Body.appendC appendC appendP
+  simp only [dLen_desc, dStr_desc]
+  cases hdv : desc s v with
+  | none => simp
+  | some dv =>
+    have e := detach_translated_eq h v dv.len (dv.len + 1) (Or.inl (by rw [lenOf_eq hdv]; omega))
+    simp only [Option.map_some, Option.bind_eq_bind, Option.bind_some, e, Option.pure_def, List.length_singleton]
+    cases hdet : detach s v dv.len (dv.len + 1) with
+    | none => simp
+    | some s1 =>
+      obtain ⟨b, blk, hv1, hb1, r1, hl⟩ := detach_excl hdet
+      have hd1 : desc s1 v = some ⟨.blk b, 0, blk.len, blk.cap, blk.ref⟩ := by simp [desc, hv1, hb1]
+      simp [putTail, hd1, memOf, hb1, hv1, writeOwn, r1, setLen, updBlk, storeChar, upd_upd_same, Option.bind_assoc, hl, desc]
+
+/-- `s.append((const char*)s + off, len)` (the model's `appendAlias`) is the translated `append(const char*, usize)` called
+    with the pointer the C string view returned -/
+theorem appendAlias_translated (s : St) (v off len : Nat) (hs : ∀ s1, cview s v = some s1 → Sane s1) :
+    appendAlias s v off len = (do
+      let s1 ← cview s v
+      let d0 ← desc s1 v
+      if off + len > d0.len then none else Body.appendP s1 v ⟨d0.base, d0.off + off⟩ len) := by
+  unfold appendAlias
+  cases hc : cview s v with
+  | none => simp
+  | some s1 =>
+    have h1 := hs s1 hc
+    simp only [Option.bind_eq_bind, Option.bind_some]
+    cases hd : desc s1 v with
+    | none => simp
+    | some d0 =>
+      simp only [Option.bind_some]
+      by_cases g : off + len > d0.len
+      · simp [g]
+      · simp [g, appendP_translated h1, hd]
+
+/-
+OPEN: `prepend(const String&)` and `prepend(const char*, usize)` are translated (`Body.prependS`, `Body.prependP`: the local
+`String copy(*this)` through the translated copy constructor and destructor over one temporary slot) but the equalities
+    Body.prependS s v w t = prependS s v w t        Body.prependP s v p len t = (model's prependP / prependAlias over the pointer)
+on `Sane` states with an empty slot `t` are not proved yet (the proof needs that `ctorCopy` into an empty slot keeps `Sane`);
+these two bodies are tied by the correspondence run and by the translator's refusal of anything outside its subset only.
+`clear`, `attach` (it stores into `_data`) and the other constructors are not translated.
+-/
+
 end Nstd.Str
 
 namespace Nstd.Str
